@@ -18,7 +18,8 @@ Verdicts == {"accept", "SignatureError", "MetadataVerificationError", "UnknownRo
 Commands == {"verify-metadata", "sign-artifacts", "gpg-sign", "gpg-key-lookup"}
 (* file-pair classes for verify-metadata: declared type of the untrusted file x library verdict *)
 UTypes == {"root", "key_mgr", "other", "none"}       \* none: not JSON / no signed.type
-SignOutcomes == {"signed", "bad_key_file", "missing_key_file", "bad_repodata", "missing_repodata", "no_sslib", "not_signable", "signer_fails"}
+SignOutcomes == {"signed", "bad_key_file", "missing_key_file", "bad_repodata", "missing_repodata", "no_sslib", "not_signable", "signer_fails",
+                 "found", "key_lookup_fails", "bad_fingerprint"}       \* the last three: gpg-key-lookup (found = the key's value was printed)
 
 VARIABLES entry, cmd, utype, verdict, signout, pc, api, status, said
 vars == <<entry, cmd, utype, verdict, signout, pc, api, status, said>>
@@ -28,10 +29,11 @@ Feasible(ut, v) ==
     [] ut = "root" -> v \in {"accept", "SignatureError", "MetadataVerificationError", "TypeError", "ValueError"}
     [] OTHER -> v \in {"accept", "SignatureError", "UnknownRoleError", "TypeError", "ValueError"}   \* role := declared type, so no type mismatch
 
-Init == /\ entry \in EntryPoints /\ cmd \in {"verify-metadata", "sign-artifacts", "gpg-sign"}
+Init == /\ entry \in EntryPoints /\ cmd \in Commands
         /\ \/ (cmd = "verify-metadata" /\ utype \in UTypes /\ verdict \in Verdicts /\ Feasible(utype, verdict) /\ signout = "signed")
            \/ (cmd = "sign-artifacts" /\ utype = "none" /\ verdict = "accept" /\ signout \in {"signed", "bad_key_file", "missing_key_file", "bad_repodata", "missing_repodata"})
            \/ (cmd = "gpg-sign" /\ utype = "none" /\ verdict = "accept" /\ signout \in {"signed", "no_sslib", "not_signable", "signer_fails", "bad_repodata"})
+           \/ (cmd = "gpg-key-lookup" /\ utype = "none" /\ verdict = "accept" /\ signout \in {"found", "no_sslib", "key_lookup_fails", "bad_fingerprint"})
         /\ pc = "dispatch" /\ api = "none" /\ status = -1 /\ said = "none"
 
 (* cli_verify_metadata: root-chain check when the untrusted file declares type root, else delegation check *)
@@ -47,7 +49,8 @@ Run == /\ pc = "run"
                  ELSE IF verdict \in {"SignatureError", "MetadataVerificationError", "UnknownRoleError"}
                         THEN (IF MUTANT = "swallow" THEN status' = 0 ELSE status' = (IF api = "verify_root" THEN 10 ELSE 20)) /\ said' = "failure"
                  ELSE status' = 1 /\ said' = "traceback"                                     \* uncaught TypeError/ValueError/OSError
-            ELSE IF signout = "signed" THEN status' = 0 /\ said' = "none"
+            ELSE IF signout \in {"signed", "found"} THEN status' = 0 /\ said' = (IF signout = "found" THEN "keyvalue" ELSE "none")
+                 ELSE IF signout = "key_lookup_fails" /\ MUTANT = "lookup_swallowed" THEN status' = 0 /\ said' = "none"
                  ELSE IF signout = "bad_key_file" /\ MUTANT = "abort_returns_none" THEN status' = 0 /\ said' = "aborted"
                  ELSE status' = 1 /\ said' = "error"
        /\ pc' = "exit" /\ UNCHANGED <<entry, cmd, utype, verdict, signout, api>>
@@ -64,6 +67,6 @@ Spec == Init /\ [][Next]_vars /\ WF_vars(Next)
 ExitReflectsVerdict == (pc = "done" /\ cmd = "verify-metadata") => ((status = 0) <=> (verdict = "accept"))
 SuccessSaidIffAccept == (pc = "done" /\ cmd = "verify-metadata") => ((said = "success") <=> (verdict = "accept"))
 RootDispatch == (pc = "done" /\ cmd = "verify-metadata" /\ utype # "none") => ((api = "verify_root") <=> (utype = "root"))
-ZeroOnlyIfSigned == (pc = "done" /\ cmd # "verify-metadata") => ((status = 0) => (signout = "signed"))
+ZeroOnlyIfSigned == (pc = "done" /\ cmd # "verify-metadata") => ((status = 0) => (signout \in {"signed", "found"}))
 Terminates == <>(pc = "done")
 =============================================================================
